@@ -129,7 +129,7 @@ def check(ctx):
                                rv["from_ty"], rv["ty"], why), where="%s:%s" % (f.file, s.get("line")))
     ctx.ob("R-2", "all-casts-lossless", True, "all %d numeric casts are of enum discriminants / constants that fit the target type" % ncast,
            sample={"casts": ncast})
-    ctx.floor("R-2", "numeric casts", ncast, 260)
+    ctx.floor("R-2", "numeric casts", ncast, 20)
 
     # ---- R-3 -------------------------------------------------------------------------
     conv = prog.fn("<common::CoseError as core::convert::From<core::num::error::TryFromIntError>>::from")
